@@ -9,6 +9,7 @@
 //@rewrite-text ((klen as f64) / 32.0).ceil() as u32 ==> shim_ceil_div32(klen)
 //@include-spec sm2_math
 //@include-spec sm3
+//@include-spec sm2_ecc
 //@section spec
 use core::fmt::Debug;
 pub uninterp spec fn str_bytes(s: &str) -> Seq<u8>;
@@ -109,9 +110,6 @@ struct Point {
 }
 //@stub sm2_ecc Point::is_valid
 //@stub sm2_ecc Point::to_affine_point
-//@section spec
-spec fn wf(p: Point) -> bool { canon(p.x@) && canon(p.y@) && canon(p.z@) }
-spec fn abs(p: Point) -> Pt { abs_pt(p.x@, p.y@, p.z@) }
 //@section spec local
 proof fn lemma_util_consts()
     ensures canon(SM2_MODP_MONT_A@), fe(SM2_MODP_MONT_A@) == CA(), canon(SM2_MODP_MONT_B@), fe(SM2_MODP_MONT_B@) == CB(),
